@@ -514,6 +514,50 @@ func c05Judge(k c04Case) *vlib.Failure {
 			return vlib.Failf("%s on %s: reported error %+v corresponds to no violation (expected: %+v)", k.Via, k.Cfg.GoLiteral(), g, want)
 		}
 	}
+	// the errors now belong to the caller, exported fields included (a portal redacts or translates them): the same
+	// configuration, validated again, is described as it was the first time
+	for _, e := range leaves {
+		if v := reflect.ValueOf(e); v.Kind() == reflect.Pointer && v.Elem().Kind() == reflect.Struct {
+			for i := 0; i < v.Elem().NumField(); i++ {
+				switch f := v.Elem().Field(i); {
+				case !f.CanSet():
+				case f.Kind() == reflect.String:
+					f.SetString("overwritten-by-the-caller")
+				case f.CanInt():
+					f.SetInt(-7)
+				}
+			}
+		}
+	}
+	_, err2, f := c04Run(k)
+	if f != nil {
+		return f
+	}
+	var again []c05Got
+	for e := range cfgerrors.All(err2) {
+		if err2 == nil {
+			break
+		}
+		g, f := c05Describe(e)
+		if f != nil {
+			return f
+		}
+		again = append(again, g)
+	}
+	if len(again) != len(got) {
+		return vlib.Failf("%s on %s reported %d errors; after the caller overwrote the exported fields of those error values, the same call reports %d", k.Via, k.Cfg.GoLiteral(), len(got), len(again))
+	}
+	// (as multisets: the order of the errors is unspecified)
+	key := func(g c05Got) string { g.ok = false; return fmt.Sprintf("%+v", g) }
+	count := map[string]int{}
+	for _, g := range got {
+		count[key(g)]++
+	}
+	for _, g := range again {
+		if count[key(g)]--; count[key(g)] < 0 {
+			return vlib.Failf("%s on %s: after the caller overwrote the exported fields of the error values it had received, the same call reports %+v, which the first call did not report (first: %+v)", k.Via, k.Cfg.GoLiteral(), g, got)
+		}
+	}
 	return nil
 }
 
